@@ -48,7 +48,8 @@ theorem typeOk_iff (k : MKind) (f : Frame) (b0 : UInt8) (rest : Bytes) (hfc : f.
 theorem C04_wrong_kind_no_fault (k : MKind) (f : Frame) (h : typeOk f k = false) : (parseMgmt k f).isFault = false := by
   rw [C04_other_subtype k f h]; rfl
 
-/-- The positive clause (NOT proved; see the header comment): on a frame of the parser's own
+/-- The positive clause (proved in `Props/C04Full.lean`: `C04_parse_statement_holds`, and in the stronger forms
+`C04_parse_bss`, `C04_parse_sta`, `C04_parse_reason`): on a frame of the parser's own
 subtype whose tagged-parameter region is well formed, the parser succeeds and reports the
 declarative Spec values. -/
 def C04_parse_statement : Prop :=
